@@ -82,9 +82,8 @@ class StreamRun(Job):
             S.win.append((st, en))
         S.thr = [V.float(f"thr{k}", lo=-4, hi=4) for k in range(len(self.windows))]
         if self.frontend == "pandas_idx":
+            # arbitrary row labels: not 0..n-1, not sorted, possibly repeated (e.g. pd.concat without ignore_index)
             S.labels = [V.int(f"lab{i}", 0, n + 1) for i in range(n)]
-            for a, b in itertools.combinations(S.labels, 2):
-                V.assume(mk_not(mk_eq(a.v, b.v)))
         else:
             S.labels = None
         return S
